@@ -388,3 +388,22 @@ def colourspace_resource_rule(model: Model, rep: Report, rid: str) -> None:
         a = c.args[0] if c.args else None
         ok = isinstance(a, ast.Call) and (dotted(a.func) or "") == "resolve1"
         r.check(bool(ok), site(f, c), f.qualname, f"`{unparse(c)}` passes a resolved specification", why="the raw dictionary value is passed: for `/CS0 5 0 R` the helper sees a reference, finds no name, and the colour space is never registered - cs/CS on it is ignored and the following sc/scn pops the wrong number of operands")
+
+
+def _colour_aliases(model: Model, rep: Report) -> None:
+    """C16-R17: SC / sc are the short forms of SCN / scn (ISO 32000-1 Table 74): each hands over to the operator of its own
+    side.  `sc` reaching do_SCN pops the operand count of the stroking space and overwrites the stroking colour."""
+    r = rep.rule("C16-R17", "DISPATCH", "the colour operators SC and sc hand over to SCN and scn respectively (stroking to stroking, non-stroking to non-stroking) and to nothing else", 2)
+    P = "pdfminer.pdfinterp.PDFPageInterpreter."
+    for short, long_ in (("do_SC", "do_SCN"), ("do_sc", "do_scn")):
+        f = model.func(P + short)
+        calls = sorted({dotted(c.func) or "?" for c in walk_no_nested(f.node) if isinstance(c, ast.Call)})
+        r.check(calls == [f"self.{long_}"], site(f), f.qualname, f"{short[3:]} -> {long_[3:]}", why=f"calls {calls}: the colour of the other side (or none) is set and the operands are popped by the wrong colour space")
+
+
+_run_r1_r16 = run
+
+
+def run(model: Model, rep: Report) -> None:  # noqa: F811
+    _run_r1_r16(model, rep)
+    _colour_aliases(model, rep)
